@@ -83,4 +83,14 @@ claim('C20', 'model_checking', 'tlc-emit-replay', 'TLA+ spec NixFile (query sect
 claim('C19', 'model_checking', 'tlc-emit-replay', 'TLA+ spec NixValid (rule table over breach subsets) + TLC (exhaustive subsets) + implementation test per subset',
       'Sound/SoftNeverError/Complete are checked by TLC on the rule table for every breach subset; each subset is injected into a real conforming file and '
       'the per-entity presence of validator errors is compared.', 'Trusted: TLC, harness/h_valid.cpp. One base-file shape with 3 length variants; <=2 (quick) / 3 breaches per file.', 'DESIGN.md section 5 (C19)')
+claim('C12', 'model_checking', 'tlc-emit-replay', 'TLA+ spec NixIds + TLC (all interleavings) + recorded multi-process executions validated by NixIdsTrace (trace validation), id stability via NixFile replay',
+      'TLC finds the same-second collision in the time-seeded design and proves IdsUnique for the entropy-seeded one (3 processes, 2 ticks); real writer '
+      'processes are run per schedule class (same second, restart within a second, sequential sessions on one file, different seconds) and their '
+      'Start/CreateId/Reread logs are accepted by the trace specification only if every id is well-formed, new and stable; id stability under create/delete/re-create/'
+      'reopen with UUID-shaped names comes from the NixFile replay.',
+      'Trusted: TLC, harness/h_ids.cpp, kernel entropy. Uniqueness of entropy seeds is an assumption of the model; collisions are only detectable among the ids actually drawn (8 x ~100 quick).', 'DESIGN.md section 5 (C12)')
+claim('C16', 'exploration', 'tlc-emit-replay', 'programs generated from the TLA+ specs (NixMisuse case table + lines of all other modules) executed under ASan+UBSan',
+      'Exploration, not model checking: the specifications supply the programs and the state coverage; undefined behaviour is detected by the sanitizers on the '
+      'executions actually run. This is the level the technique can honestly give for memory safety.',
+      'HDF5 is not instrumented; leaks are not counted; only generated programs are judged.', 'DESIGN.md section 5 (C16)')
 ENGINES[0]['serves_properties'] = sorted(CLAIMED)
